@@ -47,7 +47,7 @@ def _worker(rank, W, port, cfg, hist, q):
         from harness import kfacrun
         from harness.props.C01 import combined_grad
         mods_of = lambda model: [m for m in model if isinstance(m, (torch.nn.Linear, torch.nn.Conv2d))]
-        obs = lambda r, ev, e, model, p: [combined_grad(m) for m in mods_of(model)] if e[0] == 'train' else None
+        obs = lambda r, ev, e, model, p: ([np.asarray([int(p.memory_usage()['total'])])] + [combined_grad(m) for m in mods_of(model)]) if e[0] == 'train' else None
         res = kfacrun.rank_body(cfg, hist, W, observe=obs)(rank)
         q.put((rank, 'ok', log, [None if x is None else [np.asarray(a) for a in x] for x in res]))
         dist.barrier()
@@ -89,7 +89,7 @@ def compare(cfg, hist, seed=0):
     if len(real) != W or any(v[0] != 'ok' for v in real.values()):
         return None          # infrastructure (fork / ports / load), not a finding: the caller counts it as skipped
     mods_of = lambda model: [m for m in model if isinstance(m, (torch.nn.Linear, torch.nn.Conv2d))]
-    obs = lambda r, ev, e, model, p: [combined_grad(m) for m in mods_of(model)] if e[0] == 'train' else None
+    obs = lambda r, ev, e, model, p: ([np.asarray([int(p.memory_usage()['total'])])] + [combined_grad(m) for m in mods_of(model)]) if e[0] == 'train' else None
     w = kfacrun.run(cfg, hist, W, seed=seed, policy='random', observe=obs)
     if not w.ok:
         return [f'simulated run failed: {w.errors[:1]} {w.deadlock} {w.exceptions}'[:400]]
@@ -105,7 +105,9 @@ def compare(cfg, hist, seed=0):
             if (a is None) != (b is None):
                 diffs.append(f'rank {r} event {si}: observation present in one run only')
             elif a is not None:
-                for li, (x, y) in enumerate(zip(a, b)):
+                if int(np.asarray(a[0])[0]) != int(np.asarray(b[0])[0]):
+                    diffs.append(f'rank {r} event {si}: memory_usage() reports {int(np.asarray(a[0])[0])} bytes under the simulated transport and {int(np.asarray(b[0])[0])} under real gloo')
+                for li, (x, y) in enumerate(zip(a[1:], b[1:])):
                     err = float(np.abs(np.asarray(x) - np.asarray(y)).max()) / max(float(np.abs(np.asarray(y)).max()), 1e-30)
                     if err > 1e-4:
                         diffs.append(f'rank {r} event {si} layer {li}: gradients differ between the simulated and the real transport (rel {err:.2e})')
